@@ -1,14 +1,189 @@
 import Driver.Proto
-/-! Driver sub-command `xray` (stub – filled in by its cluster). -/
+import PtVerif.Model.Xray
+import PtVerif.Generated.F0Table
+import PtVerif.Generated.ElementBase
+import Std.Data.HashMap
+/-! Driver sub-command `xray`: scattering factors, SLD, refraction, mirror, f0 (C05) at `Float`.
+
+The `.nff` tables are streamed in (`row z eV f1 f2` … `load z`), not compiled in. -/
 namespace Driver.XrayCmd
-open Driver
+open PtModel PtModel.Xray PtNum Driver
 
 structure St where
-  dummy : Unit := ()
+  raw : Std.HashMap Nat (List (Float × Float × Float)) := {}
+  tables : Std.HashMap Nat (List (Node Float)) := {}
+  /-- `f1Nodes t`, `f2Nodes t` of each loaded table, computed once (same lists that
+      `scatteringFactors t e` maps out on every call) -/
+  nodes : Std.HashMap Nat (List (Float × Option Float) × List (Float × Option Float)) := {}
+  mass : Std.HashMap (Nat × Nat) Float := {}
+  nd : Std.HashMap Nat Float := {}
+  me : Float := 0
 
 def init : St := {}
 
+def St.massFn (st : St) (z a : Nat) : Float := (st.mass.get? (z, a)).getD (0.0 / 0.0)
+def St.am (st : St) : Atom → Float := atomMass st.massFn st.me
+
+def showO : Option Float → String
+  | some v => showF v
+  | none => "nan"
+
+/-- numpy's principal complex square root (re ≥ 0), cancellation-free form -/
+def csqrtF (z : Float × Float) : Float × Float :=
+  let (a, b) := z
+  let r := Float.sqrt (a * a + b * b)
+  if a == 0 && b == 0 then (0, b)
+  else if a >= 0 then
+    let t := Float.sqrt ((r + a) / 2)
+    (t, b / (2 * t))
+  else
+    let t := Float.sqrt ((r - a) / 2)
+    (Float.abs b / (2 * t), if b < 0 then -t else t)
+
+/-- energy of a request: `e v` = energy given, `w v` = wavelength given -/
+def energyOf (kind : String) (v : Float) : Option Float :=
+  match kind with
+  | "e" => some v
+  | "w" => some (xrayEnergy v)
+  | _ => none
+
+/-- `scatteringFactors t e` with the node lists cached at load time -/
+def St.sfz (st : St) (z : Nat) (e : Float) : Option (Option Float × Option Float) :=
+  (st.nodes.get? z).map fun n => (interpNaN n.1 e, interpNaN n.2 e)
+
+def St.sf (st : St) (e : Float) (a : Atom) : Option (Option Float × Option Float) := st.sfz a.z e
+
+def symbolOf (z : Nat) : Option String :=
+  (PtGen.elementBase.find? (fun r => r.1 = z)).map fun r => r.2.2.1
+
+def f0Lookup (smbl : String) : Option PtGen.F0Row := PtGen.f0Rows.find? fun r => r.sym = smbl
+
+def rowCoeffsF (r : PtGen.F0Row) : List (Float × Float) × Float :=
+  rowCoeffs PtGen.f0Scale r.a r.b r.c
+
+def optF (s : String) : Option (Option Float) :=
+  if s = "none" then some none else (readF s).map some
+
+def showErr : Err → String
+  | .noTable => "ERR noTable"
+  | .noDensity => "ERR noDensity"
+  | .noEnergy => "ERR noEnergy"
+
+/-- `formula(compound, natural_density=nd).density` for a compound without ions -/
+def densityOfNaturalF (st : St) (atoms : List (Atom × Float)) (nd : Float) : Float :=
+  densityOfNatural st.am (fun a => st.massFn a.z 0) atoms nd
+
 def handle (st : St) : Toks → IO St
+  | ["row", z, ev, f1, f2] =>
+    match natTok z, readF ev, readF f1, readF f2 with
+    | some z, some ev, some f1, some f2 =>
+      pure { st with raw := st.raw.insert z ((ev, f1, f2) :: (st.raw.get? z).getD []) }
+    | _, _, _, _ => do reply "ERR bad-op"; pure st
+  | ["load", z] =>
+    match natTok z with
+    | some z => do
+      let rows := ((st.raw.get? z).getD []).reverse
+      let t := loadTable rows
+      let inc := strictlyIncreasing t
+      let rawInc := strictlyIncreasing (loadTableUnsorted rows)
+      reply s!"ok {t.length} {if inc then 1 else 0} {if rawInc then 1 else 0}"
+      pure { st with tables := st.tables.insert z t, nodes := st.nodes.insert z (f1Nodes t, f2Nodes t),
+                     raw := st.raw.erase z }
+    | none => do reply "ERR bad-op"; pure st
+  | ["mass", z, a, m] =>
+    match natTok z, natTok a, readF m with
+    | some z, some a, some m => pure { st with mass := st.mass.insert (z, a) m }
+    | _, _, _ => do reply "ERR bad-op"; pure st
+  | ["nd", z, v] =>
+    match natTok z, readF v with
+    | some z, some v => pure { st with nd := st.nd.insert z v }
+    | _, _ => do reply "ERR bad-op"; pure st
+  | ["me", m] =>
+    match readF m with
+    | some m => pure { st with me := m }
+    | none => do reply "ERR bad-op"; pure st
+  | ["sf", z, kind, v] => do
+    match natTok z, readF v >>= energyOf kind with
+    | some z, some e =>
+      match st.sfz z e with
+      | some (f1, f2) => reply s!"{showO f1} {showO f2}"
+      | none => reply "notable"
+    | _, _ => reply "ERR bad-op"
+    pure st
+  | ["e2w", v] => do
+    match readF v with
+    | some v => reply (showF (xrayWavelength v))
+    | none => reply "ERR bad-op"
+    pure st
+  | ["w2e", v] => do
+    match readF v with
+    | some v => reply (showF (xrayEnergy v))
+    | none => reply "ERR bad-op"
+    pure st
+  | "sld" :: dk :: d :: kind :: v :: rest => do
+    match optF d, readF v >>= energyOf kind, readItems rest with
+    | some d, some e, some (s, []) =>
+      let atoms := s.atoms
+      let dens := if dk = "n" then d.map (densityOfNaturalF st atoms) else d
+      match xraySld st.am (st.sf e) atoms dens with
+      | .ok (r, i) => reply s!"ok {showO r} {showO i}"
+      | .error err => reply (showErr err)
+    | _, _, _ => reply "ERR bad-op"
+    pure st
+  | ["esld", z, kind, v] => do
+    match natTok z, readF v >>= energyOf kind with
+    | some z, some e =>
+      match st.sfz z e with
+      | none => reply "none"
+      | some sf =>
+        match elementSld sf (st.nd.get? z) with
+        | some (r, i) => reply s!"ok {showO r} {showO i}"
+        | none => reply "none"
+    | _, _ => reply "ERR bad-op"
+    pure st
+  | "ior" :: d :: kind :: v :: rest => do
+    match optF d, readF v, readItems rest with
+    | some d, some v, some (s, []) =>
+      -- index_of_refraction: energy= is first converted to a wavelength, which xray_sld converts back
+      let w := if kind = "e" then xrayWavelength v else v
+      match xraySld st.am (st.sf (xrayEnergy w)) s.atoms d with
+      | .ok sld =>
+        match indexOfRefraction w sld with
+        | some (re, im) => reply s!"ok {showF re} {showF im}"
+        | none => reply "ok nan nan"
+      | .error err => reply (showErr err)
+    | _, _, _ => reply "ERR bad-op"
+    pure st
+  | "mirror" :: d :: kind :: v :: ang :: rough :: rest => do
+    match optF d, readF v, readF ang, readF rough, readItems rest with
+    | some d, some v, some ang, some rough, some (s, []) =>
+      let w := if kind = "e" then xrayWavelength v else v
+      match xraySld st.am (st.sf (xrayEnergy w)) s.atoms d with
+      | .ok sld => reply ("ok " ++ showO (mirrorReflectivity csqrtF w ang rough (indexOfRefraction w sld)))
+      | .error err => reply (showErr err)
+    | _, _, _, _, _ => reply "ERR bad-op"
+    pure st
+  | ["f0", z, q, qq] => do
+    match natTok z, intTok q, readF qq with
+    | some z, some q, some qq =>
+      match symbolOf z with
+      | none => reply "ERR KeyError"
+      | some sym =>
+        match f0Lookup (String.ofList (resolveSymbol sym.toList (some q))) with
+        | none => reply "ERR KeyError"
+        | some r => let (ab, c) := rowCoeffsF r; reply ("ok " ++ showO (f0 ab c qq))
+    | _, _, _ => reply "ERR bad-op"
+    pure st
+  | ["f0sym", sym, q, stol] => do
+    let qo : Option (Option Int) := if q = "none" then some none else (intTok q).map some
+    match qo, readF stol with
+    | some qo, some stol =>
+      let smbl := String.ofList (resolveSymbol sym.toList qo)
+      match f0Lookup smbl with
+      | none => reply s!"ERR KeyError {smbl}"
+      | some r => let (ab, c) := rowCoeffsF r; reply ("ok " ++ showO (atstol ab c stol))
+    | _, _ => reply "ERR bad-op"
+    pure st
   | _ => do reply "ERR bad-op"; pure st
 
 end Driver.XrayCmd
